@@ -344,6 +344,10 @@ namespace GeographicLib {
                         _alt_zone, northp,
                         _alt_easting, _alt_northing, _alt_gamma, _alt_k,
                         zone);
+        // The alternate coordinates are reported with the hemisphere _northp;
+        // this can differ from northp only on the equator (UTM)
+        if (northp != _northp && _alt_zone > 0)
+          _alt_northing += (_northp ? -1 : 1) * UTMUPS::UTMShift();
       }
     }
 
